@@ -162,6 +162,15 @@ def r05_1(ctx, counts, only: Optional[set[str]] = None, rule: str = 'R05.1') -> 
                     elif isinstance(t.value, ast.Attribute) and t.value.attr == '_items' \
                             and is_token_expr(t.value.value):
                         pass
+                elif isinstance(t, ast.Subscript) and (
+                        (isinstance(t.value, ast.Attribute) and t.value.attr == '__dict__'
+                         and is_token_expr(t.value.value)) or
+                        (isinstance(t.value, ast.Call) and dotted(t.value.func) == 'vars'
+                         and t.value.args and is_token_expr(t.value.args[0]))):
+                    key = stmt_text(t.slice).strip('\'"')
+                    found.append((n, f'self.{key} store',
+                                  f'`{stmt_text(t)} = …` writes attribute `{key}` of the token '
+                                  f'through its __dict__'))
                 elif isinstance(t, ast.Subscript):
                     base = t.value
                     who = is_token_expr(base)
@@ -192,8 +201,15 @@ def r05_1(ctx, counts, only: Optional[set[str]] = None, rule: str = 'R05.1') -> 
                         found.append((n, f'{recv.id}.{n.func.attr}() on shallow copy',
                                       f'`{stmt_text(n)[:50]}`: {recv.id} is a shallow copy; its '
                                       f'item list is shared with the original token'))
-            if isinstance(n, ast.Call) and dotted(n.func) == 'setattr' and n.args \
-                    and is_token_expr(n.args[0]):
+            if isinstance(n, ast.Call) and isinstance(n.func, ast.Attribute) and \
+                    n.func.attr in ('update', 'setdefault', 'pop', 'clear') and \
+                    isinstance(n.func.value, ast.Attribute) and n.func.value.attr == '__dict__' \
+                    and is_token_expr(n.func.value.value):
+                found.append((n, f'__dict__.{n.func.attr}()',
+                              f'`{stmt_text(n)[:50]}` rewrites attributes of the token through '
+                              f'its __dict__'))
+            if isinstance(n, ast.Call) and dotted(n.func) in ('setattr', 'object.__setattr__') \
+                    and n.args and is_token_expr(n.args[0]):
                 nm = stmt_text(n.args[1]) if len(n.args) > 1 else '?'
                 found.append((n, f'setattr {nm}',
                               f'`{stmt_text(n)[:50]}` rebinds {nm} on the token instance'))
